@@ -38,6 +38,58 @@ type replica struct {
 	pts    []kyber.Point
 	scs    []kyber.Scalar
 	noBase bool // the group has no Base()/Mul(s, nil) of its own (target groups)
+	// pairing families (G1 or G2 of a pairing suite): the pool has one target-group slot that the
+	// "pair" call writes, and the family gets one more replica of every implementation that is
+	// RELOADED before every call - every pool value is replaced by the decoding of its encoding, as
+	// after a restart with only the stored state surviving. The live replica carries the internal
+	// (projective, cached) form that earlier calls left behind; the two must never diverge.
+	su     pairing.Suite
+	which  int
+	reload bool
+	gt     kyber.Point
+}
+
+// reloadState replaces every pool value by the decoding of its own encoding.
+func (r *replica) reloadState(info *core.RunInfo) {
+	for i, p := range r.pts {
+		q := r.point()
+		if err := q.UnmarshalBinary(mb(p)); err != nil {
+			info.Probe("reload-refused-own-encoding")
+			continue
+		}
+		r.pts[i] = q
+	}
+	for i, sc := range r.scs {
+		q := r.g.Scalar()
+		if err := q.UnmarshalBinary(mb(sc)); err != nil {
+			info.Probe("reload-refused-own-encoding")
+			continue
+		}
+		r.scs[i] = q
+	}
+}
+
+// pair writes e(p, s*Base2) (G1 families) or e(s*Base1, p) (G2 families) into the target slot.
+func (r *replica) pair(p kyber.Point, s kyber.Scalar) {
+	if r.which == 0 {
+		o := r.su.G2().Point().Mul(s, nil)
+		if r.reload {
+			o2 := r.su.G2().Point()
+			if o2.UnmarshalBinary(mb(o)) == nil {
+				o = o2
+			}
+		}
+		r.gt = r.su.Pair(p, o)
+		return
+	}
+	o := r.su.G1().Point().Mul(s, nil)
+	if r.reload {
+		o2 := r.su.G1().Point()
+		if o2.UnmarshalBinary(mb(o)) == nil {
+			o = o2
+		}
+	}
+	r.gt = r.su.Pair(o, p)
 }
 
 func (r *replica) point() kyber.Point {
@@ -97,6 +149,10 @@ func runProgram(t *core.Tape, info *core.RunInfo) *core.Violation {
 			r.g, r.base = su.GT(), su.Pair(su.G1().Point().Base(), su.G2().Point().Base())
 		}
 		reps = []*replica{r}
+		if which < 2 {
+			r.su, r.which = su, which
+			reps = append(reps, &replica{name: curve + "-reloaded", g: r.g, base: r.base, su: su, which: which, reload: true})
+		}
 	} else if t.Bool("prog.model", 200) {
 		// one implementation next to a math/big reference model of its curve (C18: "P-256 and BN G1
 		// agree with a reference Weierstrass model")
@@ -147,6 +203,12 @@ func runProgram(t *core.Tape, info *core.RunInfo) *core.Violation {
 				r.g, r.base, r.noBase = b.s.GT(), b.s.Pair(b.s.G1().Point().Base(), b.s.G2().Point().Base()), true
 			}
 			reps = append(reps, r)
+		}
+		if which < 2 {
+			for i, b := range backends() {
+				reps[i].su, reps[i].which = b.s, which
+				reps = append(reps, &replica{name: b.name + "-reloaded", g: reps[i].g, base: reps[i].base, su: b.s, which: which, reload: true})
+			}
 		}
 	}
 	info.Config["kind"], info.Config["family"] = "replicated-program", family
@@ -203,7 +265,9 @@ func runProgram(t *core.Tape, info *core.RunInfo) *core.Violation {
 			if enc := edgeEncodingBN(t, family); enc != nil {
 				p := reps[0].point()
 				if err := p.UnmarshalBinary(enc); err == nil {
-					reps[0].pts[i] = p
+					for _, x := range reps {
+						x.pts[i] = p.Clone()
+					}
 					info.Faults["edge-limb-operand"]++
 				}
 			}
@@ -219,10 +283,15 @@ func runProgram(t *core.Tape, info *core.RunInfo) *core.Violation {
 			for _, sc := range reps[0].scs {
 				h.Write(scVal(sc))
 			}
+			if reps[0].gt != nil {
+				h.Write(mb(reps[0].gt))
+			}
 			info.Logf("step %d state %x", step, h.Sum(nil)[:12])
-			return nil
 		}
 		for _, r := range reps[1:] {
+			if (reps[0].gt == nil) != (r.gt == nil) || (r.gt != nil && !bytes.Equal(mb(reps[0].gt), mb(r.gt))) {
+				return viol("replicas-agree", "program/pairing-differs/"+family+"/"+reps[0].name+"-vs-"+r.name, "after step %d of [%s]: the pairing result is %x on %s and %x on %s", step, strings.Join(trace, "; "), head(mbOrNil(reps[0].gt)), reps[0].name, head(mbOrNil(r.gt)), r.name)
+			}
 			for i := 0; i < nP; i++ {
 				if a, b := mb(reps[0].pts[i]), mb(r.pts[i]); !bytes.Equal(a, b) {
 					return viol("replicas-agree", "program/state-differs/"+family+"/"+reps[0].name+"-vs-"+r.name, "after step %d of [%s]: point p%d is %x on %s and %x on %s", step, strings.Join(trace, "; "), i, head(a), reps[0].name, head(b), r.name)
@@ -250,7 +319,25 @@ func runProgram(t *core.Tape, info *core.RunInfo) *core.Violation {
 		zero := reps[0].scs[sb].Equal(reps[0].g.Scalar().Zero())
 		var desc string
 		var op func(x *replica)
+		if reps[0].su != nil {
+			switch t.Intn("prog.pair", 10) {
+			case 1, 2, 3:
+				kind = 100
+			case 4:
+				kind = 101
+			}
+		}
 		switch kind {
+		case 101:
+			// stored and loaded again: the live replica gets an affine, freshly decoded operand too
+			desc, op = fmt.Sprintf("p%d.Unmarshal(p%d.Marshal())", r, a), func(x *replica) {
+				q := x.point()
+				if q.UnmarshalBinary(mb(x.pts[a])) == nil {
+					x.pts[r] = q
+				}
+			}
+		case 100:
+			desc, op = fmt.Sprintf("gt=pair(p%d,s%d*base)", a, sa), func(x *replica) { x.pair(x.pts[a], x.scs[sa]) }
 		case 0:
 			desc, op = fmt.Sprintf("p%d.Add(p%d,p%d)", r, a, b), func(x *replica) { x.pts[r].Add(x.pts[a], x.pts[b]) }
 		case 1:
@@ -335,6 +422,9 @@ func runProgram(t *core.Tape, info *core.RunInfo) *core.Violation {
 		var panics []string
 		for _, x := range reps {
 			x := x
+			if x.reload {
+				x.reloadState(info)
+			}
 			if pn := core.Guard(func() { op(x) }); pn != nil {
 				panics = append(panics, fmt.Sprintf("%s: %v", x.name, pn))
 			}
@@ -428,4 +518,11 @@ var smallOrderEd = [][]byte{
 	hx("26e8958fc2b227b045c3f489f2ef98f0d5dfac05d3c63339b13802886d53fc85"), // order 8
 	hx("c7176a703d4dd84fba3c0b760d10670f2a2053fa2c39ccc64ec7fd7792ac037a"), // order 8
 	hx("c7176a703d4dd84fba3c0b760d10670f2a2053fa2c39ccc64ec7fd7792ac03fa"), // order 8
+}
+
+func mbOrNil(p kyber.Point) []byte {
+	if p == nil {
+		return nil
+	}
+	return mb(p)
 }
